@@ -48,8 +48,11 @@ class LoopSpec:
 class CallModel:
     """Trusted / assumed behaviour of a call that is not under contract (listed in evidence)."""
     def __init__(self, pattern, returns=None, post=(), modifies=(), raises=(), havoc_all=False, note="",
-                 ghost=None, pre=(), fresh=None, kwargs=None, nargs=None):
+                 ghost=None, pre=(), fresh=None, kwargs=None, nargs=None, permutes=None):
         self.pattern = pattern
+        # index of a positional argument (a local list) that the call rearranges in place: afterwards it holds the
+        # same elements in an unknown order (random.shuffle)
+        self.permutes = permutes
         self.returns = returns
         self.post = list(post)
         self.pre = list(pre)
